@@ -10,6 +10,7 @@ pub fn generate(prop: &str, thorough: bool, seed: u64, w: W) -> std::io::Result<
     let mut r = Rng::new(seed ^ prop_salt(prop));
     match prop {
         "C01" => c01(&mut r, thorough, w),
+        "C02" => c02(&mut r, thorough, w),
         "C03" => c03(&mut r, thorough, w),
         "C04" => c04(&mut r, thorough, w),
         "C05" => c05(&mut r, thorough, w),
@@ -388,6 +389,31 @@ fn c01(r: &mut Rng, thorough: bool, w: W) -> std::io::Result<()> {
         let m = message(r, &MsgOpts { storage: None, big, max_args: if big { 12 } else { 6 } });
         let sfx = suffix(r);
         writeln!(w, "RT {} {}", p_message(&m), hex(&sfx))?;
+    }
+    Ok(())
+}
+
+fn c02(r: &mut Rng, thorough: bool, w: W) -> std::io::Result<()> {
+    // encoding: the type-directed well-formed messages of C01 (every payload kind, both byte
+    // orders, all flag sets, all argument kinds and widths, boundary lengths)
+    let n = if thorough { 200_000 } else { 4_000 };
+    let nbig = if thorough { 1_000 } else { 30 };
+    for i in 0..n {
+        let big = i < nbig;
+        let m = message(r, &MsgOpts { storage: None, big, max_args: if big { 12 } else { 6 } });
+        writeln!(w, "ENC {}", p_message(&m))?;
+    }
+    // decoding: canonical, dialect, mutated, truncated, spliced, arbitrary; both storage modes
+    let n = if thorough { 1_000_000 } else { 10_000 };
+    for i in 0..n {
+        let (ws, v) = decode_stream(r, i % 500 == 0);
+        writeln!(w, "PARSE {} - {}", p_bool(ws), hex(&v))?;
+        // every truncation of some of them (the incomplete / reject boundary)
+        if i % 40 == 0 && v.len() < 200 {
+            for k in 0..v.len() {
+                writeln!(w, "PARSE {} - {}", p_bool(ws), hex(&v[..k]))?;
+            }
+        }
     }
     Ok(())
 }
